@@ -1,5 +1,6 @@
 """C06 — note-length quantisation yields only allowed durations and never moves onsets."""
 import gens as G
+import h4seq_util as U
 import pyimpl as P
 from oracle_util import *  # noqa
 from protocol import from_real
@@ -38,14 +39,20 @@ def o_qnl(inp):
     if wf_violations(pre) or any(on >= off for (_, _, on, off, _) in notes_of(pre)):
         return [("~skip:not-well-formed", "")]
     if inp.get("state"):
-        # through the Sequence wrapper, from one of its freshness states; the result is read through the RELATIVE view of a copy,
-        # i.e. what save / normalise / Bar / to_midi_track would see afterwards
+        # through the Sequence wrapper, from one of its freshness states
         s_ = P.seq_in_state(G.abs_to_rel(a), inp["state"])
         try:
             s_.quantise_note_lengths(list(values), do_not_extend=dne)
         except Exception as e:
             return [("raises", f"{type(e).__name__}: {e}")]
-        out = [from_real(m) for m in P.seq_of_rel(P.content_of(s_)).abs._messages]
+        # the object's own two views, read directly (no copy(), no second conversion by the library): the absolute view is judged below, the
+        # relative view must show the same timed events and duration
+        out = [from_real(m) for m in s_.abs._messages]
+        out_rel = [from_real(m) for m in s_.rel._messages]
+        if U.content_abs(out) != U.content_rel(out_rel):
+            return [("views", f"after quantise_note_lengths from state '{inp['state']}' the relative view does not show what the absolute view shows")]
+        if not all_int_times(out) or not all_int_times(out_rel):
+            return [("int", "non-integer tick after quantise_note_lengths")]
     else:
         s = P.mk_abs(a)
         try:
@@ -61,9 +68,10 @@ def o_qnl(inp):
     nin = notes_of(tin)
     nout = notes_of(tout)
     if inp.get("state"):
-        # read back through the relative view: the cap message is re-created (its channel is inferred, it is dropped when another
-        # message sits on the last tick) — it is not an event; what must be unchanged is every non-note event
-        same_cap = True
+        # the wrapper state was built from a relative list: its cap message was created by the conversion (its channel is inferred, there is
+        # none when another message sits on the last tick) — it is not an event; what must be unchanged is every non-note event and the duration
+        last = max([m[TIME] for m in a if m[TY] != INTERNAL] + [0])
+        same_cap = [m[TIME] for m in out if m[TY] == INTERNAL] == [m[TIME] for m in a if m[TY] == INTERNAL and m[TIME] > last][:1]
     else:
         same_cap = [m for m in a if m[TY] == INTERNAL] == [m for m in out if m[TY] == INTERNAL]
     if non_note(tin) != non_note(tout) or not same_cap:
@@ -113,7 +121,9 @@ def setup(ctx):
 def generate(ctx):
     rng = ctx.rng
     for i in range(ctx.n(400, 15000)):
-        a, notes = G.gen_wf_abs(rng, channels=(0, 1))
+        chans = rng.choice([(0, 1), (0, 1), (0, 1, 2), (0, 5, 9, 15)])
+        ctx.count("channels:%d" % len(chans))
+        a, notes = G.gen_wf_abs(rng, channels=chans)
         if rng.random() < 0.35:
             a = G.shuffle_ties(rng, a)       # entered in another order: equal-time messages not in canonical order
             ctx.count("abs:ties-shuffled")
